@@ -65,7 +65,14 @@ def ev_kind(ev):
     return str(ev)
 
 
-def bfs(ctx, spec, max_depth, label="", max_states=None, roots=((),)):
+def _probe_only(hist):
+    spec = _SPEC
+    W = _replay(spec, hist)
+    pv = spec.probe(W, hist)
+    return {"probe": pv, "probes": getattr(W, "nprobe", 1)}
+
+
+def bfs(ctx, spec, max_depth, label="", max_states=None, roots=((),), probe_final=False):
     """Runs the search; merges counters into ctx.cov (prefix label) and reports
     violations through ctx.violation with the full history as the case."""
     global _SPEC
@@ -117,6 +124,14 @@ def bfs(ctx, spec, max_depth, label="", max_states=None, roots=((),)):
         frontier = nxt
     else:
         exhausted = not frontier
+    if probe_final and frontier and hasattr(spec, "probe"):
+        # the states at the depth bound are not expanded, but their behaviour is still observed
+        cs = max(1, len(frontier) // (ctx.nproc * 8))
+        for hist, r in zip(frontier, ctx.pmap(_probe_only, frontier, chunksize=cs)):
+            histories += 1
+            probes += r.get("probes", 0)
+            for cls, msg in r["probe"]:
+                ctx.violation("%s:%s%s" % (ctx.prop, pfx, cls), {"spec": spec.name, "hist": list(hist), "probe": True}, msg)
     c = ctx.cov
     c["states"] = c.get("states", 0) + len(seen)
     c["transitions"] = c.get("transitions", 0) + transitions
